@@ -4,6 +4,7 @@ package openflow13
 
 import (
 	"encoding/binary"
+	"errors"
 
 	"github.com/contiv/libOpenflow/common"
 	log "github.com/sirupsen/logrus"
@@ -207,6 +208,9 @@ func (b *Bucket) UnmarshalBinary(data []byte) error {
 			return err
 		}
 		b.Actions = append(b.Actions, a)
+		if a.Len() == 0 {
+			return errors.New("The bucket contains an action of length 0.")
+		}
 		n += int(a.Len())
 	}
 
